@@ -31,6 +31,9 @@ def run(tier, seed):
     steps = 5000 if tier == "quick" else 150000
     full = 400 if tier == "quick" else 2500
     progs = [("walk", steps, full), ("square", steps // 2, full // 2), ("chain", steps // 2, full // 2), ("pluseq_small", steps // 2, full // 2), ("between", steps // 2, full // 2)]
+    # the same programs with the registers behind Eigen::Map views over user buffers (shorter: the arithmetic is the same,
+    # what differs is which assignment / renormalisation code path the storage kind selects)
+    progs += [(p + "_view", max(n // 5, 500), f // 2) for (p, n, f) in progs]
     plan_lines = ["%s %s %d %d" % (p, k, n, f) for k in keys for (p, n, f) in progs]
     wd = vlib.workdir("C08")
     plan = os.path.join(wd, "plan.txt"); open(plan, "w").write("\n".join(plan_lines) + "\n")
